@@ -1015,8 +1015,16 @@ def oracle(case, impl):
         with np.errstate(all="ignore"):
             G = _prod_gram(case, f)
         idx = np.ix_(pos_idx, pos_idx)
-        dev = float(np.abs(G[idx] - np.eye(len(pos_idx))).max()) if pos_idx else 0.0
-        if dev > 1e-6:
+        # tolerance conditioned on the eigenvalue: the coefficients are divided by √ν_m, so a relative solver error ε
+        # shows as ε·ν_max/ν_m — 1e-6 for well-separated scales, relaxed for eigenvalues below 1e-6·ν_max
+        if pos_idx:
+            nn = nu[pos_idx]
+            tolm = 1e-6 * np.maximum(1.0, 1e-6 * nn.max() / np.minimum.outer(nn, nn))
+            excess = np.abs(G[idx] - np.eye(len(pos_idx))) / tolm
+            dev = float(np.abs(G[idx] - np.eye(len(pos_idx))).max()) if float(excess.max()) > 1.0 else 0.0
+        else:
+            dev = 0.0
+        if dev > 0.0:
             cs = list(causes)
             msg = f"{tag}: max |Σ_p⟨ψ_m,ψ_l⟩ − δ| = {dev:.3g} over the {len(pos_idx)} components with positive eigenvalue"
             if "univariate_scores_not_centred" in cs and pos_idx:
@@ -1061,6 +1069,9 @@ def oracle(case, impl):
                 # eigenvectors of relatively tiny eigenvalues are ill-conditioned functions of the (float) solver
                 # input: the two solver runs may legitimately differ there — not judged below 1e-6·ν_max
                 if nu0[m] <= 1e-6 * sc:
+                    continue
+                # … and inside a cluster of nearly equal eigenvalues (gap below 1e-6·ν_max) the eigenvectors rotate freely
+                if len(nu0) > 1 and np.min(np.abs(np.delete(nu0, m) - nu0[m])) <= 1e-6 * sc:
                     continue
                 sgn = 1.0 if np.dot(S0[:, m], S1[:, m]) >= 0 else -1.0
                 ssc = max(np.abs(S0[:, m]).max(), 1e-300)
